@@ -370,7 +370,8 @@ func coalesceIntervals(intervals []ast.Interval) []ast.Interval {
 
 		// Check if current overlaps or is adjacent to last
 		// Adjacent means end of last + 1 nanosecond = start of current
-		if last.End.Timestamp >= curr.Start.Timestamp-1 {
+		// (curr.Start - 1 would wrap around for the smallest timestamp.)
+		if curr.Start.Timestamp <= last.End.Timestamp || curr.Start.Timestamp-1 == last.End.Timestamp {
 			// Merge: extend the end if needed
 			if curr.End.Timestamp > last.End.Timestamp {
 				last.End = curr.End
